@@ -1,7 +1,7 @@
 (** Soundness of the validator: code it accepts simulates the reference semantics. *)
 From Coq Require Import List ZArith Bool Arith Lia Floats.SpecFloat.
 From RB Require Import Generated.Tables Val.Variant Val.Arith2 Lang.Ast Lang.Sem VM.Instr VM.Gen VM.Machine VM.GenProofs
-                       VM.Loops VM.ForLoops VM.Branch VM.DoLoops VM.Validate RT.Printer.
+                       VM.Loops VM.ForLoops VM.SelectCase VM.Branch VM.DoLoops VM.Validate RT.Printer.
 Import ListNotations.
 Local Open Scope nat_scope.
 
@@ -24,6 +24,42 @@ Lemma is_label_at_nth code pc p : is_label_at code pc p = true -> exists l, nth_
 Proof.
   unfold is_label_at. destruct (nth_error code pc) as [[i q]|]; [|discriminate].
   destruct i; try discriminate. destruct (pos_eq_dec p q); [subst; eexists; reflexivity|discriminate].
+Qed.
+
+Lemma multi_check_layout code p : forall cs pc first stmts nxt,
+  multi_check code p pc cs first stmts nxt = true -> multi_layout code p pc cs first stmts nxt.
+Proof.
+  induction cs as [|c t IH]; intros pc first stmts nxt H; [discriminate|].
+  cbn [multi_check] in H. cbn [multi_layout].
+  apply andb_true_iff in H. destruct H as [Hl Hr]. split.
+  - destruct first; [exact I|apply is_label_at_nth; exact Hl].
+  - destruct t as [|c2 t'].
+    + apply andb_true_iff in Hr. destruct Hr as [Hs He]. split; [apply slice_is_code_at; exact Hs|apply Nat.eqb_eq; exact He].
+    + apply andb_true_iff in Hr. destruct Hr as [Hr Hm]. apply andb_true_iff in Hr. destruct Hr as [Hs Hj].
+      split; [apply slice_is_code_at; exact Hs|]. split; [apply instr_at_nth; exact Hj|]. apply IH. exact Hm.
+Qed.
+
+Lemma header_check_layout code p pc cs bs nxt :
+  header_check code p pc cs bs nxt = true -> header_layout code p pc cs bs nxt.
+Proof.
+  unfold header_check, header_layout. destruct cs as [|c [|c2 t]]; intros H; [discriminate| |].
+  - apply andb_true_iff in H. destruct H as [Hs He]. split; [apply slice_is_code_at; exact Hs|apply Nat.eqb_eq; exact He].
+  - apply andb_true_iff in H. destruct H as [H He]. apply andb_true_iff in H. destruct H as [Hm Hl].
+    exists (multi_stmts p pc (c :: c2 :: t) true). split; [apply multi_check_layout; exact Hm|].
+    split; [apply is_label_at_nth; exact Hl|apply Nat.eqb_eq; exact He].
+Qed.
+
+Lemma chain_check_layout code p pend : forall cases pc els,
+  chain_check code p pc pend cases els = true -> chain_layout code p pc pend cases els.
+Proof.
+  induction cases as [|[[[cs b] bs] lb] rest IH]; intros pc els H; cbn [chain_check] in H; cbn [chain_layout].
+  - destruct els as [[be le]|].
+    + apply andb_true_iff in H. destruct H as [Hl He]. split; [apply is_label_at_nth; exact Hl|apply Nat.eqb_eq; exact He].
+    + apply Nat.eqb_eq; exact H.
+  - apply andb_true_iff in H. destruct H as [H Hc]. apply andb_true_iff in H. destruct H as [H Hj].
+    apply andb_true_iff in H. destruct H as [Hl Hh].
+    split; [apply is_label_at_nth; exact Hl|]. split; [apply header_check_layout; exact Hh|].
+    split; [apply instr_at_nth; exact Hj|apply IH; exact Hc].
 Qed.
 
 Section WithNumberText.
@@ -107,6 +143,32 @@ Proof.
     cbn [arms_blocks]. split; [intros f; apply Bk; exact Eb|exact Hb].
 Qed.
 
+Lemma sel_pass1_sound (cb : list stmt -> nat -> option nat) code p :
+  (forall l pc n, cb l pc = Some n -> forall f, simulates code pc n (blockf f l)) ->
+  forall l pc r last els',
+  sel_pass1 cb p l pc = Some (r, last) ->
+  (match els' with Some (be, le) => forall f, simulates code (S last) le (blockf f be) | None => True end) ->
+  strip4 r = l /\ pc <= last /\ chain_blocks num_text is_negative code pc r els'.
+Proof.
+  intros Bk. induction l as [|[cs b] t IH]; intros pc r last els' H He.
+  - cbn in H. inversion H; subst r last. split; [reflexivity|]. split; [lia|]. cbn [chain_blocks]. exact He.
+  - cbn [sel_pass1] in H. destruct (header_bs p (S pc) cs) as [bs|] eqn:Eh; [|discriminate].
+    destruct (cb b bs) as [lb|] eqn:Eb; [|discriminate].
+    destruct (sel_pass1 cb p t (bs + lb + 1)) as [[r' last']|] eqn:E2; [|discriminate].
+    inversion H; subst r last. destruct (IH _ _ _ els' E2 He) as (Hs & Hle & Hb).
+    assert (Hbs : pc <= bs).
+    { assert (G : forall cs0 pc0 first, pc0 <= multi_stmts p pc0 cs0 first).
+      { induction cs0 as [|c0 t0 IH0]; intros pc0 first; cbn [multi_stmts]; [lia|].
+        destruct t0 as [|c1 t1]; [destruct first; lia|]. specialize (IH0 ((if first then pc0 else S pc0) + length (case_code c0 0 p) + 1) false).
+        destruct first; lia. }
+      pose proof (G cs (S pc) true) as G1.
+      unfold header_bs in Eh. destruct cs as [|c [|c2 t2]]; [discriminate| |].
+      - injection Eh as Ebs. lia.
+      - remember (multi_stmts p (S pc) (c :: c2 :: t2) true) as ms. injection Eh as Ebs. lia. }
+    split; [cbn [strip4 map fst snd]; f_equal; exact Hs|]. split; [lia|].
+    cbn [chain_blocks]. split; [intros f; apply Bk; exact Eb|exact Hb].
+Qed.
+
 Theorem check_stmt_sound : forall k code pc s len, check_stmt k code pc s = Some len ->
   forall f, simulates code pc len (exec f s).
 Proof.
@@ -120,6 +182,29 @@ Proof.
       inversion Hb; subst. apply simulates_cons; [apply IH; exact E1|apply IHl; exact E2]. }
   cbn [check_stmt] in H. fold (Validate.check_block k code) in H.
   destruct s as [p n e|p args|p c thn elifs els|p c body|p top until c body|p v lo hi step body|p e cases els]; try discriminate.
+  7:{ (* SELECT CASE *)
+      destruct (sel_pass1 (Validate.check_block k code) p cases (pc + length (gen_expr e) + 1)) as [[cs4 last]|] eqn:E1; [|discriminate].
+      destruct els as [be|].
+      - destruct (Validate.check_block k code be (S last)) as [lbe|] eqn:Ee; [|discriminate].
+        match type of H with (if ?cnd then _ else _) = _ => destruct cnd eqn:E; [|discriminate] end.
+        inversion H; subst len. clear H.
+        apply andb_true_iff in E. destruct E as [E Hpop]. apply andb_true_iff in E. destruct E as [E Hlab].
+        apply andb_true_iff in E. destruct E as [E Hch]. apply andb_true_iff in E. destruct E as [Hsl Hpush].
+        destruct (sel_pass1_sound (Validate.check_block k code) code p B _ _ _ _ (Some (be, lbe)) E1 (fun f => B be (S last) lbe Ee f))
+          as (Hs & Hle & Hb).
+        intros f. rewrite <- Hs. change (Some be) with (option_map fst (Some (be, lbe))).
+        apply (select_correct num_text is_negative code pc p e (S last + lbe) cs4 (Some (be, lbe))); [lia| |exact Hb].
+        unfold select_layout. split; [apply slice_is_code_at; exact Hsl|]. split; [apply instr_at_nth; exact Hpush|].
+        split; [apply chain_check_layout; exact Hch|]. split; [apply is_label_at_nth; exact Hlab|apply instr_at_nth; exact Hpop].
+      - match type of H with (if ?cnd then _ else _) = _ => destruct cnd eqn:E; [|discriminate] end.
+        inversion H; subst len. clear H.
+        apply andb_true_iff in E. destruct E as [E Hpop]. apply andb_true_iff in E. destruct E as [E Hlab].
+        apply andb_true_iff in E. destruct E as [E Hch]. apply andb_true_iff in E. destruct E as [Hsl Hpush].
+        destruct (sel_pass1_sound (Validate.check_block k code) code p B _ _ _ _ None E1 I) as (Hs & Hle & Hb).
+        intros f. rewrite <- Hs. change (@None (list stmt)) with (option_map (@fst (list stmt) nat) None).
+        apply (select_correct num_text is_negative code pc p e last cs4 None); [lia| |exact Hb].
+        unfold select_layout. split; [apply slice_is_code_at; exact Hsl|]. split; [apply instr_at_nth; exact Hpush|].
+        split; [apply chain_check_layout; exact Hch|]. split; [apply is_label_at_nth; exact Hlab|apply instr_at_nth; exact Hpop]. }
   6:{ (* FOR *)
       destruct (etype lo) as [tlo|] eqn:Etlo; [|discriminate]. destruct (etype hi) as [thi|] eqn:Ethi; [|discriminate].
       destruct step as [se|].
